@@ -193,6 +193,16 @@ def session (r : R) (env : List Ans) : Nat → List Res × R × List Ans
 /-- `Connection::connect`: `Reconnect::new(.., is_lazy = false).ready_oneshot()`. -/
 def connectEager (env : List Ans) : R × List Ans × Poll := drive (R.init false) env
 
+/-- `Channel::connect` (eager) / `Channel::new` (lazy) over a flat script, then `n` calls. -/
+def channelSession (isLazy : Bool) (env : List Ans) (n : Nat) : SessBuild × List Res × R × List Ans :=
+  if isLazy then (.none, session (R.init true) env n)
+  else
+    match connectEager env with
+    | (r', env', .ready) => (.ok, session r' env' n)
+    | (r', env', .failed e) => (.fail e, [], r', env')
+    | (r', env', .pending) => (.hang, [], r', env')
+    | (r', env', .panic) => (.panic, [], r', env')
+
 /-! ### End-to-end environment at quiescent points -/
 namespace E2E
 
